@@ -1,6 +1,6 @@
 (* C15 property theorems. Only statements closed by [exact lemma] and Print Assumptions. *)
 From V Require Import Common.Base C15.Names C15.Renamer C15.Spec
-  C15.NamesProofs C15.NumberProofs C15.SlotsProofs C15.MinifyProofs C15.ComposeProofs C15.ResolveProofs C15.ScopeBuild C15.ScopeProg C15.ScopeBuildProofs.
+  C15.NamesProofs C15.NumberProofs C15.SlotsProofs C15.MinifyProofs C15.ComposeProofs C15.ResolveProofs C15.ScopeBuild C15.ScopeProg C15.ScopeBuildProofs C15.ScopeResolveProofs.
 
 (* NumberToMinifiedName is injective for every alphabet without repeated characters *)
 Theorem minified_name_injective : forall m,
@@ -254,3 +254,39 @@ Theorem parser_forest_wellformed : forall prog,
   wf_slots st m = true /\ wf_number st (module_top m) (sc_children m) = true.
 Proof. exact parse_forest_wellformed_all. Qed.
 Print Assumptions parser_forest_wellformed.
+
+(* ---- end to end on parser-built forests ----
+   PARTIAL form of resolution_preserved.  Full statement wanted: "for every
+   program and every renaming produced by the renamers on its forest, every
+   reference resolves PER ECMA-262 (declaration instantiation written
+   independently over the AST) to the same declaration before and after".
+   Proved here, for EVERY program of the binding-form AST (strict code: var, let,
+   function declarations also in blocks, blocks, try/catch with and without
+   parameter incl. the catch-parameter/var merge, for-let, named and anonymous
+   function expressions, arrows, parameters, arguments, free names) and with NO
+   well-formedness hypothesis left: the symbol the PARSER binds a reference to
+   (lookup of the name in the environment of its scope, ScopeProg.parser_refs,
+   tied to the real js_parser by check_scopebuild) is again what lookup finds
+   when every name of that environment is replaced by the name the NumberRenamer
+   assigned - in both ways the linker runs it: module scope symbols as top-level
+   symbols, or the module scope as a nested scope (wrapped files).  Missing for
+   the full statement: the agreement of parser environments with an independently
+   written ECMA-262 resolver (exercised by the Node oracle only), the minifier
+   instance, and the forms outside the AST (sloppy-mode Annex B function-in-block,
+   `with`, direct eval, labels, classes, default-value scopes: the five recorded
+   findings live there and have no model-level witness). *)
+Theorem resolution_preserved_partial : forall prog fuel reserved names,
+  let '(m, st) := parse_forest prog in
+  number_rename fuel st reserved (module_top m) (sc_children m) = Some names ->
+  incl (ComputeReservedNames st [m]) reserved ->
+  Forall (ref_preserved st names) (parser_refs prog).
+Proof. exact resolution_preserved_toplevel_all. Qed.
+Print Assumptions resolution_preserved_partial.
+
+Theorem resolution_preserved_wrapped_partial : forall prog fuel reserved names,
+  let '(m, st) := parse_forest prog in
+  number_rename fuel st reserved [] [m] = Some names ->
+  incl (ComputeReservedNames st [m]) reserved ->
+  Forall (ref_preserved st names) (parser_refs prog).
+Proof. exact resolution_preserved_wrapped_all. Qed.
+Print Assumptions resolution_preserved_wrapped_partial.
